@@ -35,6 +35,8 @@ type Tokenizer struct {
 	mode      string
 	exkey     bool
 
+	quoteDelim byte
+
 	// OnlyOne returns an error if more than one JSON is in the string or stream.
 	OnlyOne bool
 }
@@ -259,6 +261,7 @@ func (t *Tokenizer) tokenizeBuffer(buf []byte, last bool) {
 			}
 			off += i
 		case valQuote:
+			t.quoteDelim = b
 			start := off + 1
 			if len(buf) <= start {
 				t.tmp = t.tmp[:0]
@@ -271,7 +274,7 @@ func (t *Tokenizer) tokenizeBuffer(buf []byte, last bool) {
 				}
 			}
 			off += i
-			if b == '"' {
+			if b == t.quoteDelim {
 				off++
 				t.addString(string(buf[start:off]))
 			} else {
@@ -385,7 +388,11 @@ func (t *Tokenizer) tokenizeBuffer(buf []byte, last bool) {
 			}
 			off += i
 		case strQuote:
-			t.addString(string(t.tmp))
+			if b == t.quoteDelim {
+				t.addString(string(t.tmp))
+			} else {
+				t.tmp = append(t.tmp, b)
+			}
 		case numZero:
 			t.mode = zeroMap
 		case numDigit:
